@@ -68,7 +68,47 @@ func nilReturns(fn *ssa.Function) []Site {
 func isReplayCallback(fn *ssa.Function) bool {
 	par := fn.Parent()
 	if par == nil {
-		return false
+		// a named function that was extracted since the reference tree: the callback itself (handed to Replay as a
+		// function or method value), or a helper that only replay callbacks call
+		if !isFresh(fn) || theProg == nil {
+			return false
+		}
+		handed := false
+		for _, g := range theProg.modFns {
+			eachInstr(g, func(s Site) {
+				c, ok := s.Instr.(*ssa.Call)
+				if !ok || !Suffix("WriteAheadLogReplayI.Replay", "Replayer.Replay")(CalleeKey(c)) {
+					return
+				}
+				for _, a := range c.Call.Args {
+					if a == ssa.Value(fn) {
+						handed = true
+					}
+					if mc, ok := a.(*ssa.MakeClosure); ok {
+						if w, ok := mc.Fn.(*ssa.Function); ok && w.Synthetic != "" {
+							eachInstr(w, func(t Site) {
+								if d, ok := t.Instr.(ssa.CallInstruction); ok && d.Common().StaticCallee() == fn {
+									handed = true
+								}
+							})
+						}
+					}
+				}
+			})
+		}
+		if handed {
+			return true
+		}
+		sites := theProg.CallSitesOf(fn)
+		if len(sites) == 0 {
+			return false
+		}
+		for _, cs := range sites {
+			if cs.Fn == fn || !isReplayCallback(cs.Fn) {
+				return false
+			}
+		}
+		return true
 	}
 	res := false
 	eachInstr(par, func(s Site) {
@@ -119,7 +159,22 @@ func ruleLogBeforeApply(r *Report) {
 			continue
 		}
 		A := CallsIn(fn, walAnyAppend)
-		o.OnlyAfterSuccess(rule, key, fn, "a WAL append", A, "the memstore mutation", B, nil)
+		// a new helper that both logs and applies is one call here: the order is decided inside it
+		isA := map[ssa.Instruction]bool{}
+		for _, a := range A {
+			isA[a.Instr] = true
+		}
+		var B2 []Site
+		for _, b := range B {
+			if !(b.Lifted && isA[b.Instr]) {
+				B2 = append(B2, b)
+			}
+		}
+		if len(B2) == 0 {
+			r.OK(rule, key, fn.Pos(), "logs and applies through one helper, which is checked on its own")
+			continue
+		}
+		o.OnlyAfterSuccess(rule, key, fn, "a WAL append", A, "the memstore mutation", B2, nil)
 	}
 }
 
@@ -146,7 +201,8 @@ func ruleSyncDefault(r *Report) {
 		for _, e := range tEdges {
 			removed[e] = true
 		}
-		for i, a := range CallsIn(fn, walAppend) {
+		// (the call of a new helper that appends is judged inside the helper, which is a logging function itself)
+		for i, a := range directOnly(CallsIn(fn, walAppend)) {
 			key := fmt.Sprintf("%s/%s/async-append#%d", rule, FuncKey(fn), i+1)
 			if len(tEdges) == 0 || siteReachable(a, removed) {
 				r.Bad(rule, key, a.Pos(), "the non-fsync Append is reachable without passing the true edge of a test of DB.enableAsyncWAL")
@@ -554,8 +610,9 @@ func classifiedSentinels(p *Prog, s Site) map[string]bool {
 		if sents == nil {
 			continue
 		}
-		// the "is" side must not lead straight to a failing return
-		if endsInFailingReturn(isSucc) {
+		// the "is" side must not lead straight to a failing return (returning what the release of the reader says is not
+		// one: `return reader.Close()` reports the close, not the classified error)
+		if endsInFailingReturn(isSucc) && !returnsCloseResult(isSucc, al) {
 			continue
 		}
 		for g := range sents {
@@ -563,6 +620,43 @@ func classifiedSentinels(p *Prog, s Site) map[string]bool {
 		}
 	}
 	return out
+}
+
+// returnsCloseResult: following jumps from b ends in a return whose error operand is the result of a Close call and does
+// not carry any of the given error values.
+func returnsCloseResult(b *ssa.BasicBlock, al map[ssa.Value]bool) bool {
+	fn := b.Parent()
+	idx := errorResultIndex(fn)
+	seen := map[*ssa.BasicBlock]bool{}
+	for b != nil && !seen[b] {
+		seen[b] = true
+		switch x := b.Instrs[len(b.Instrs)-1].(type) {
+		case *ssa.Return:
+			if idx < 0 || idx >= len(x.Results) {
+				return false
+			}
+			v := x.Results[idx]
+			if _, vals := returnErrOperand(x, idx); len(vals) == 1 {
+				v = vals[0]
+			}
+			c, ok := v.(*ssa.Call)
+			if !ok {
+				return false
+			}
+			name := ""
+			if c.Call.IsInvoke() {
+				name = c.Call.Method.Name()
+			} else if sc := c.Call.StaticCallee(); sc != nil {
+				name = fnName(sc)
+			}
+			return name == "Close" && !valueDependsOn(v, func(y ssa.Value) bool { return al[y] })
+		case *ssa.Jump:
+			b = b.Succs[0]
+		default:
+			return false
+		}
+	}
+	return false
 }
 
 // endsInFailingReturn follows unconditional jumps from b; true when the chain ends in a Return whose error operand is not constant nil.
@@ -617,7 +711,7 @@ func ruleTorn(r *Report) {
 		}
 	}
 	for _, m := range []struct{ what, name string }{{"open", "Open"}, {"read", "ReadNext"}} {
-		sites := CallsIn(fn, Suffix("ReaderI."+m.name, "OpenableI."+m.name, "FileReader."+m.name))
+		sites := realSites(fn, Suffix("ReaderI."+m.name, "OpenableI."+m.name, "FileReader."+m.name))
 		if len(sites) == 0 {
 			r.Missing(rule, fmt.Sprintf("%s/wal.Replayer.Replay/%s", rule, m.what), "no reader."+m.name+" call in Replay")
 			continue
@@ -803,6 +897,33 @@ func ruleNames(r *Report, which []string) {
 			for _, fn := range p.FuncsOfPkg(pkg) {
 				for _, s := range CallsIn(fn, Keys("fmt.Sprintf")) {
 					f, ok := stringConst(s.Call().Common().Args[0])
+					if !ok {
+						// the format kept in a field that only ever gets one constant
+						if ty, fld, _, isF := loadOfField(s.Call().Common().Args[0]); isF {
+							vals := map[string]bool{}
+							all := true
+							for _, g := range p.ModuleFuncs() {
+								eachInstr(g, func(t Site) {
+									st, isS := t.Instr.(*ssa.Store)
+									if !isS {
+										return
+									}
+									if ty2, fld2, _, isF2 := fieldAddrName(st.Addr); isF2 && ty2 == ty && fld2 == fld {
+										if c, isC := stringConst(st.Val); isC {
+											vals[c] = true
+										} else {
+											all = false
+										}
+									}
+								})
+							}
+							if all && len(vals) == 1 {
+								for c := range vals {
+									f, ok = c, true
+								}
+							}
+						}
+					}
 					if !ok || !strings.Contains(f, marker) || !strings.Contains(f, "%") {
 						continue
 					}
@@ -856,6 +977,35 @@ func ruleSortedBeforeUse(r *Report, rule string, fn *ssa.Function) {
 			}
 		}
 	})
+	// … or in a helper that was extracted since: its call stands for the construction
+	eachInstr(fn, func(s Site) {
+		c, ok := s.Instr.(*ssa.Call)
+		if !ok {
+			return
+		}
+		sc := c.Call.StaticCallee()
+		if sc == nil || !isFresh(sc) {
+			return
+		}
+		for _, g := range append([]*ssa.Function{sc}, moduleReach(r.P, []*ssa.Function{sc})...) {
+			if g != sc && !isFresh(g) {
+				continue
+			}
+			hit := false
+			eachInstr(g, func(t Site) {
+				if d, ok := t.Instr.(*ssa.Call); ok && CalleeKey(d) == "" {
+					if _, f, _, ok := loadOfField(d.Call.Value); ok && f == "readerFactory" {
+						hit = true
+					}
+				}
+			})
+			if hit {
+				s.Lifted = true
+				cons = append(cons, s)
+				return
+			}
+		}
+	})
 	if len(cons) == 0 {
 		r.Missing(rule, key, "no consumer (reader construction) found after the sort in "+FuncKey(fn))
 		return
@@ -879,7 +1029,7 @@ func ruleSortedBeforeUse(r *Report, rule string, fn *ssa.Function) {
 
 func ruleRotate(r *Report) {
 	const rule = "rotate"
-	r.Rule(rule, 4, "WAL rotation closes (flushes) the old file before the next one is created; the memstore is handed to the flusher only after a successful rotation; both append flavours check size/rotate before writing")
+	r.Rule(rule, 5, "WAL rotation closes (flushes) the old file before the next one is created; a failed creation of the next file leaves the appender as it was; the memstore is handed to the flusher only after a successful rotation; both append flavours check size/rotate before writing")
 	p := r.P
 	o := &order{r, p}
 	if fn := r.NeedFunc(rule, "wal.Appender.Rotate"); fn != nil {
@@ -899,7 +1049,8 @@ func ruleRotate(r *Report) {
 		}
 		fresh := true
 		for _, b := range B {
-			args := argsOf(b.Call())
+			// the appender: first argument, or the receiver where the helper is a method
+			args := b.Call().Common().Args
 			if len(args) == 0 {
 				fresh = false
 				continue
@@ -915,6 +1066,42 @@ func ruleRotate(r *Report) {
 		}
 		A := CallsIn(fn, Suffix("WriterI.Close", "CloseableI.Close", "FileWriter.Close"))
 		o.OnlyAfterSuccess(rule, key, fn, "currentWriter.Close", A, "setupNextWriter", B, nil)
+	}
+	// a rotation that fails leaves the appender as it was: the current writer, its path and the next number change only
+	// once the next file is created and open. A path that is set in front of that names a file that does not exist (or an
+	// empty one) when the creation fails; the next attempt takes it for the file it has just closed and hands it to the
+	// flusher, which removes every log file up to that name — including the one that holds the unflushed records.
+	if fn := p.Func("wal.setupNextWriter"); fn != nil {
+		key := rule + "/wal.setupNextWriter/state-after-success"
+		idx := errorResultIndex(fn)
+		bad := ""
+		n := 0
+		eachInstr(fn, func(s Site) {
+			st, ok := s.Instr.(*ssa.Store)
+			if !ok {
+				return
+			}
+			typ, fld, _, isF := fieldAddrName(st.Addr)
+			if !isF || typ != "wal.Appender" || (fld != "currentWriter" && fld != "currentWriterPath" && fld != "nextWriterNumber") {
+				return
+			}
+			n++
+			for _, rs := range returnsOf(fn) {
+				if k, _ := returnErrOperand(rs.Instr.(*ssa.Return), idx); k == "nil" {
+					continue
+				}
+				if reachableFromSite(s, rs) {
+					bad = fmt.Sprintf("%s is assigned at %s and the function can still fail at %s", fld, p.Pos(s.Pos()), p.Pos(rs.Pos()))
+				}
+			}
+		})
+		if n == 0 {
+			r.Unk(rule, key, fn.Pos(), "no assignment of the appender's current writer found")
+		} else if bad != "" {
+			r.Bad(rule, key, fn.Pos(), "the appender's state is changed before the next file is created and open ("+bad+"): after a failed rotation (disk full, EMFILE) the appender names a file that was never written while it still holds the old, closed writer; the retry reports that name as the file it closed, and the flusher removes the log files up to it — the rejected Put's retry succeeds, a crash after it loses acknowledged records")
+		} else {
+			r.OK(rule, key, fn.Pos(), fmt.Sprintf("%d assignment(s) of the appender's writer state, none in front of a failing exit", n))
+		}
 	}
 	// Rotate hands back the path of the file it closed: the flusher deletes every WAL file up to that name
 	if fn := p.Func("wal.Appender.Rotate"); fn != nil {
@@ -1110,7 +1297,27 @@ func ruleIdempotent(r *Report) {
 			default:
 				// os.Remove / os.Mkdir: allowed only if guarded by a condition that is constant-false on every
 				// recovery call path (walPath != "" with the recovery literal leaving walPath zero)
-				if guardedOffRecoveryLifted(p, fn, s, 0) {
+				listed := false
+				if ck == "os.Remove" {
+					// the name comes from a listing this attempt has just made: what a killed attempt has removed is not
+					// in it any more
+					listed = valueDependsOn(s.Call().Common().Args[0], func(x ssa.Value) bool {
+						c, isC := x.(*ssa.Call)
+						if !isC {
+							return false
+						}
+						if c.Call.IsInvoke() && c.Call.Method.Name() == "Name" {
+							return valueDependsOn(c.Call.Value, func(y ssa.Value) bool {
+								l, isL := y.(*ssa.Call)
+								return isL && CalleeKey(l) == "os.ReadDir"
+							})
+						}
+						return false
+					})
+				}
+				if listed {
+					r.OK(rule, key, s.Pos(), "removes an entry of the listing made by this attempt")
+				} else if guardedOffRecoveryLifted(p, fn, s, 0) {
 					r.OK(rule, key, s.Pos(), "guarded by walPath != \"\"; the recovery call site passes a literal without walPath")
 				} else {
 					r.Bad(rule, key, s.Pos(), ck+" is not repeatable: a second recovery attempt after a kill fails on it")
@@ -1746,6 +1953,48 @@ func ruleWalReclaim(r *Report) {
 					}
 				}
 			}
+			if !ordered {
+				// `bound == "" || name <= bound`: the comparison is passed on every way to the removal except where the
+				// bound is empty (everything is swept)
+				for _, b := range liveBlocks(f) {
+					if len(b.Instrs) == 0 {
+						continue
+					}
+					iff, ok := b.Instrs[len(b.Instrs)-1].(*ssa.If)
+					if !ok {
+						continue
+					}
+					bo, ok := iff.Cond.(*ssa.BinOp)
+					if !ok {
+						continue
+					}
+					if bt, ok := bo.X.Type().Underlying().(*types.Basic); !ok || bt.Info()&types.IsString == 0 {
+						continue
+					}
+					switch bo.Op {
+					case token.LEQ, token.LSS, token.GEQ, token.GTR:
+					default:
+						continue
+					}
+					removed := map[Edge]bool{}
+					for _, su := range b.Succs {
+						removed[Edge{b, su}] = true
+					}
+					for _, e := range liveBlocks(f) {
+						for _, v := range ifCmpForms(e) {
+							if v.Op != token.EQL || (v.X != bo.X && v.X != bo.Y) {
+								continue
+							}
+							if k, isK := stringConst(v.Y); isK && k == "" {
+								removed[Edge{e, v.T}] = true
+							}
+						}
+					}
+					if !reachFrom(f.Blocks[0], removed)[x.Block] {
+						ordered = true
+					}
+				}
+			}
 			if inLoop && ordered {
 				sweep = true
 			}
@@ -2057,6 +2306,18 @@ func walDirRemovals(p *Prog, fn *ssa.Function) []Site {
 	for _, s := range removalSites(p, fn) {
 		if CalleeKey(s.Call()) == "simpledb.executeFlush" {
 			continue
+		}
+		// a newly extracted helper around the flush: it removes files only through executeFlush
+		if sc := s.Call().Common().StaticCallee(); sc != nil && isFresh(sc) && len(CallsIn(sc, Keys("simpledb.executeFlush"))) > 0 {
+			other := false
+			for _, t := range removalSites(p, sc) {
+				if CalleeKey(t.Call()) != "simpledb.executeFlush" {
+					other = true
+				}
+			}
+			if !other {
+				continue
+			}
 		}
 		out = append(out, s)
 	}
@@ -2470,20 +2731,20 @@ func ruleReplayCountsEveryMutation(r *Report) {
 				incs = append(incs, s)
 			}
 		})
-		eachInstr(g, func(s Site) {
-			c, ok := s.Instr.(ssa.CallInstruction)
-			if !ok {
-				return
-			}
-			ck := CalleeKey(c)
+		applies := func(ck string) bool {
 			if !strings.Contains(ck, "RWMemstore.") && !strings.Contains(ck, "MemStoreI.") {
-				return
+				return false
 			}
 			switch ck[strings.LastIndex(ck, ".")+1:] {
 			case "Upsert", "Add", "Tombstone", "Delete", "DeleteIfExists":
-			default:
-				return
+				return true
 			}
+			return false
+		}
+		// (the call of a newly extracted helper that applies the record counts as the applying call)
+		for _, s := range CallsIn(g, applies) {
+			c := s.Instr.(ssa.CallInstruction)
+			ck := CalleeKey(c)
 			n++
 			dom := false
 			for _, inc := range incs {
@@ -2494,7 +2755,7 @@ func ruleReplayCountsEveryMutation(r *Report) {
 			if !dom {
 				bad = ck + " at " + p.Pos(s.Pos())
 			}
-		})
+		}
 	}
 	if n == 0 {
 		r.Unk(rule, key, fn.Pos(), "no memstore mutation found in the replay callback")
